@@ -80,7 +80,7 @@ def build(x):
     st.text = '#[verifier::reject_recursive_types(TimestampGen)]\n#[verifier::reject_recursive_types(WatermarkGen)]\n#[verifier::reject_recursive_types(OperatorChain)]\n' + st.text
     pieces += [st, ADD_IMPL]
     nx = x.method(F, 'AddTimestamp', 'next', trait='Operator')
-    nx.replace_exact('V-TRAIT', 'StreamElement<Self::Out>', 'StreamElement<OperatorChain::Out>', detail='associated type Out substituted by its definition')
+    nx.replace_exact('V-TRAIT', 'StreamElement<Self::Out>', 'StreamElement<OperatorChain::Out>', detail='associated type Out substituted by its definition', count=None)
     nx.name_result('r')
     nx.add_spec(ADD_NEXT_SPEC)
     nx.sub('V-ASSERT', r'_ => panic!\((?:[^()]|\((?:[^()]|\([^()]*\))*\))*\),', '_ => { rust_panic(); StreamElement::Terminate }',
@@ -92,7 +92,7 @@ def build(x):
     sd = x.struct(F, 'DropTimestamp')
     sd.text = '#[verifier::reject_recursive_types(OperatorChain)]\n' + sd.text
     dn = x.method(F, 'DropTimestamp', 'next', trait='Operator')
-    dn.replace_exact('V-TRAIT', 'StreamElement<Self::Out>', 'StreamElement<OperatorChain::Out>', detail='associated type Out substituted by its definition')
+    dn.replace_exact('V-TRAIT', 'StreamElement<Self::Out>', 'StreamElement<OperatorChain::Out>', detail='associated type Out substituted by its definition', count=None)
     dn.name_result('r')
     dn.add_spec(DROP_NEXT_SPEC)
     dn.text = '#[verifier::exec_allows_no_decreases_clause]\n' + dn.text
@@ -101,8 +101,7 @@ def build(x):
                 self.prev.hist().len() >= old(self).prev.hist().len(),
                 forall|i: int| 0 <= i < self.prev.hist().len() - old(self).prev.hist().len() ==> #[trigger] self.prev.hist().skip(old(self).prev.hist().len() as int)[i] is Watermark,
 ''')
-    dn.insert_before('match self.prev.next() {', 'let ghost h0 = self.prev.hist();\n            ')
-    dn.sub('V-SPEC', r'match self\.prev\.next\(\) \{', 'let __e = self.prev.next();\n            proof { let k = old(self).prev.hist().len() as int; assert(self.prev.hist().skip(k) =~= h0.skip(k).push(__e)); }\n            match __e {',
-           detail='scrutinee bound to a ghost-visible name `__e`', must=True)
+    dn.insert_before(re.compile(r'(?:match|let (?:mut )?\w+(?:\s*:[^=;]*)? =) self\.prev\.next\(\)'), 'let ghost h0 = self.prev.hist();\n            ')
+    dn.pull_hint('proof { let k = old(self).prev.hist().len() as int; assert(self.prev.hist().skip(k) =~= h0.skip(k).push(__e)); }')
     pieces += [sd, "impl<OperatorChain> DropTimestamp<OperatorChain>\nwhere\n    OperatorChain: Operator,\n{", dn, "}"]
     return pieces
